@@ -247,6 +247,32 @@ func OkE5Loop(q chan *mangos.Message, stop chan struct{}, s sink) {
 	}
 }
 
+func BadE5LoopErr(q chan *mangos.Message, stop chan struct{}, s sink) {
+	var m *mangos.Message
+	var err error
+	for err == nil {
+		select {
+		case <-stop:
+			err = errors.New("stopped")
+		case m = <-q:
+			err = s.SendMsg(m)
+		}
+	}
+	m.Free()
+}
+
+func BadBufferAfterFree(m *mangos.Message, w io.Writer) {
+	body := m.Body
+	m.Free()
+	_, _ = w.Write(body)
+}
+
+func OkBufferBeforeFree(m *mangos.Message, w io.Writer) {
+	body := m.Body
+	_, _ = w.Write(body)
+	m.Free()
+}
+
 // ---- E11 closer leak
 type L struct {
 	l     net.Listener
@@ -454,12 +480,14 @@ func runSelfTests(verifDir string) SelfTestResult {
 		"SendMsg":                "E5/release-on-error", // badSender (okSender shares the name: see below)
 		"BadE6d":                 "E6d/unbounded",
 		"BadE5DeferredClosure":   "E5/double-release",
+		"BadE5LoopErr":           "E5/double-release",
+		"BadBufferAfterFree":     "E5/buffer-after-release",
 		"BadE11Leak":             "e11",
 		"BadRequeue":             "requeue",
 		"BadPublish":             "publish",
 		"BadShortRead":           "read",
 	}
-	silent := []string{"okE1Defer", "OkE3Read", "OkE3bRecheck", "OkCondWait", "OkE5Once", "OkE5UniqueThenWrite", "OkE6d", "OkE6dRange", "SetN", "Close", "NewT", "OkE5Loop", "OkE11Closed", "OkE11StoredFirst", "OkForward", "OkPublish", "OkFullRead"}
+	silent := []string{"okE1Defer", "OkE3Read", "OkE3bRecheck", "OkCondWait", "OkE5Once", "OkE5UniqueThenWrite", "OkE6d", "OkE6dRange", "SetN", "Close", "NewT", "OkE5Loop", "OkBufferBeforeFree", "OkE11Closed", "OkE11StoredFirst", "OkForward", "OkPublish", "OkFullRead"}
 	var names []string
 	for k := range want {
 		names = append(names, k)
